@@ -92,3 +92,26 @@ Definition src_check (c : tree * list (query * answer)) : bool :=
 Definition src_explain (c : tree * list (query * answer)) : list (query * answer) :=
   let '(t, qa) := c in filter (fun x => negb (answer_ok t (fst x) (snd x))) qa.
 
+
+(* ---- archives against the index model Ref/Archive.v: members in archive order, listings in the
+   order the source reported them ---- *)
+From AM Require Import Ref.Archive.
+
+Definition arch_answer_ok (ix : index) (q : query) (a : answer) : bool :=
+  match q, a with
+  | QReadDir d, AListing l =>
+    match idx_read_dir ix d with Some l' => list_eqb dentry_eqb l l' | None => false end
+  | QReadDir d, ANotFound => match idx_read_dir ix d with None => true | Some _ => false end
+  | QReadDir _, _ => false
+  | QExists e, ABool b => Bool.eqb (idx_exists ix e) b
+  | QRead i x, ABytes _ => idx_exists ix (DFile i x)
+  | QRead i x, ANotFound => negb (idx_exists ix (DFile i x))
+  | _, _ => true
+  end.
+
+Definition arch_check (c : list member * list (query * answer)) : bool :=
+  let ix := build (fst c) in forallb (fun x => arch_answer_ok ix (fst x) (snd x)) (snd c).
+
+Definition arch_explain (c : list member * list (query * answer)) :=
+  let ix := build (fst c) in
+  (idirs ix, filter (fun x => negb (arch_answer_ok ix (fst x) (snd x))) (snd c)).
